@@ -17,15 +17,17 @@ func c20Test(c *Ctx) *RuleResult {
 	p := c.P
 	u := p.Unit(virtualPkg, "ByteRangeLockSet.Test")
 	var loop *ast.ForStmt
-	for _, s := range u.Decl.Body.List {
+	var after []ast.Stmt
+	for i, s := range u.Decl.Body.List {
 		if f, ok := s.(*ast.ForStmt); ok {
 			loop = f
+			after = u.Decl.Body.List[i+1:]
 		}
 	}
-	if loop == nil || loop.Cond != nil {
-		panic(anchorError("ByteRangeLockSet.Test: unconditional for loop"))
+	if loop == nil {
+		panic(anchorError("ByteRangeLockSet.Test: the loop over the lock list"))
 	}
-	d := BuildDTableFall(u, loop.Body, "continue")
+	d := BuildDTableLoop(u, loop, after)
 	if d.Err != "" {
 		r.undecided(u.Name(), d.Err)
 		return r
@@ -41,7 +43,7 @@ func c20Test(c *Ctx) *RuleResult {
 	lTest := u.Fn.Type().(*types.Signature).Params().At(0).Name()
 	recvName := u.Decl.Recv.List[0].Names[0].Name
 	leSearch := ""
-	ast.Inspect(loop.Body, func(n ast.Node) bool {
+	ast.Inspect(loop, func(n ast.Node) bool {
 		if as, ok := n.(*ast.AssignStmt); ok && as.Tok == token.ASSIGN && len(as.Lhs) == 1 && len(as.Rhs) == 1 {
 			if sel, ok := ast.Unparen(as.Rhs[0]).(*ast.SelectorExpr); ok && sel.Sel.Name == "next" && exprStr(sel.X) == exprStr(as.Lhs[0]) {
 				leSearch = exprStr(as.Lhs[0])
@@ -138,6 +140,43 @@ func c20TestThenSet(c *Ctx) *RuleResult {
 			arg := exprStr(call.Args[0])
 			lit := lockLiteral(u, call.Args[0])
 			construct := constructOf(u, "Set("+arg+")")
+			// the lock value is a parameter of a helper: judge what each caller passes
+			if id, ok := ast.Unparen(call.Args[0]).(*ast.Ident); ok && lit == nil {
+				if v, ok := info.Uses[id].(*types.Var); ok && isParamOf(u, v) && !u.Fn.Exported() {
+					idx := -1
+					sig := u.Fn.Type().(*types.Signature)
+					for i := 0; i < sig.Params().Len(); i++ {
+						if sig.Params().At(i) == v {
+							idx = i
+						}
+					}
+					sites := CallsTo(units, u.Fn)
+					for _, s := range sites {
+						sc := s.Node.(*ast.CallExpr)
+						slit := lockLiteral(s.Unit, sc.Args[idx])
+						cc := constructOf(s.Unit, "Set("+exprStr(sc.Args[idx])+") via "+u.Fn.Name())
+						if slit == nil || !strings.HasSuffix(litField(slit, "Type"), "ByteRangeLockTypeUnlocked") {
+							r.bad(c.Prop, cc, posOf(p, sc), "a lock that is not an 'unlocked' range is entered through a helper that performs no conflict test")
+							continue
+						}
+						if st := litField(slit, "Start"); st == "0" {
+							end := litFieldExpr(slit, "End")
+							tv := s.Unit.Info().Types[end]
+							maxU := constant.MakeUint64(^uint64(0))
+							if tv.Value != nil && constant.Compare(tv.Value, token.EQL, maxU) {
+								r.ok(cc+"|whole-file", posOf(p, sc), "unlocks [0, MaxUint64]")
+							} else {
+								r.bad(c.Prop, cc+"|whole-file", posOf(p, sc), fmt.Sprintf("the whole-file unlock ends at %s, not at the end-of-file value MaxUint64 used by the offset/length conversion: locks reaching beyond it survive CLOSE / lease expiry and keep excluding other owners", exprStr(end)))
+							}
+						} else {
+							r.ok(cc, posOf(p, sc), "enters an 'unlocked' range")
+						}
+					}
+					if len(sites) > 0 {
+						continue
+					}
+				}
+			}
 			unlocking := lit != nil && strings.HasSuffix(litField(lit, "Type"), "ByteRangeLockTypeUnlocked")
 			if unlocking {
 				// range check for UnlockAll-like literals (constant Start/End)
@@ -564,11 +603,47 @@ func c20Count(c *Ctx) *RuleResult {
 			safe := false
 			for _, g := range flattenGuards(GuardsOf(info, cu.Decl.Body, call)) {
 				s := exprStr(g.Cond)
-				if !g.Pos && (s == recvExpr+".lockCount > 0" || s == recvExpr+".lockCount != 0") {
+				if g.Pos && s == recvExpr+".lockCount <= 0" {
 					safe = true
 				}
 				if g.Pos && s == recvExpr+".lockCount == 0" {
 					safe = true
+				}
+			}
+			if !safe {
+				// the object comes from a getter that only hands it out when it holds no locks:
+				//   lofs, st := h(...); if st == OK { lofs.remove(...) }   with every non-nil return of
+				//   h guarded by <returned>.lockCount <= 0
+				if id, ok := ast.Unparen(ast.Unparen(call.Fun).(*ast.SelectorExpr).X).(*ast.Ident); ok {
+					if src, ok := ast.Unparen(resolveLocalAlias(cu, id)).(*ast.CallExpr); ok {
+						if h := calleeOf(info, src); h != nil && p.Decl(h) != nil {
+							hd := p.Decl(h)
+							hinfo := p.InfoFor(hd)
+							all, any := true, false
+							ast.Inspect(hd.Body, func(m ast.Node) bool {
+								ret, ok := m.(*ast.ReturnStmt)
+								if !ok || len(ret.Results) < 1 || isNilIdent(ret.Results[0]) {
+									return true
+								}
+								any = true
+								rv := exprStr(ret.Results[0])
+								okRet := false
+								for _, g := range flattenGuards(GuardsOf(hinfo, hd.Body, ret)) {
+									gs := exprStr(g.Cond)
+									if g.Pos && (gs == rv+".lockCount <= 0" || gs == rv+".lockCount == 0") {
+										okRet = true
+									}
+								}
+								if !okRet {
+									all = false
+								}
+								return true
+							})
+							if any && all {
+								safe = true
+							}
+						}
+					}
 				}
 			}
 			if !safe {
@@ -701,8 +776,8 @@ func isFreshEntry(u *FuncUnit, name string) bool {
 
 func init() {
 	register(&PropertySpec{
-		ID:    "C20",
-		Level: "other",
+		ID:          "C20",
+		Level:       "other",
 		Explanation: "Structural necessary conditions of POSIX record-lock semantics: the complete decision table of the conflict test (all 2*3*3*3*3*3 orderings of its six comparisons); Set with a locking type only after Test of the same lock under one locksLock section, unlocks span the documented whole-file range; owner identity (every owner handed to the lock table is the address of the per-owner state object, created objects are registered, no never-populated owner map); returned count deltas reach lockCount and asserting removal is gated. The split/merge algorithm of Set versus a per-byte model and offset arithmetic are not decided.",
 		Assumptions: []string{"lock entries stay sorted by start (Set's algorithm, not decided here)"},
 		Rules:       []RuleFunc{c20Test, c20TestThenSet, c20Owner, c20Count, c20Sorted, c18PoolEntry},
